@@ -193,4 +193,24 @@ theorem reached_iff (src : Nat → Bool) (v : Nat) :
       rw [this] at ih
       cases ih
 
+/-- on an undirected graph (symmetric `edge`) the nodes reached from the sources are exactly the nodes of the
+    components that contain a source -/
+theorem reach_iff_component (src : Nat → Bool) (hsym : ∀ u v, edge u v = edge v u) (v : Nat) :
+    Spec.Reach n edge src v ↔ ∃ s, src s = true ∧ Spec.Conn n edge s v := by
+  constructor
+  · intro h
+    induction h with
+    | base hv hs => exact ⟨_, hs, Spec.Conn.refl hv⟩
+    | step _ he hv ih =>
+      obtain ⟨s, hs, hc⟩ := ih
+      exact ⟨s, hs, Spec.Conn.step hc (Or.inl he) hv⟩
+  · rintro ⟨s, hs, hc⟩
+    induction hc with
+    | refl hsn => exact Spec.Reach.base hsn hs
+    | step _ he hv ih =>
+      rcases he with he | he
+      · exact Spec.Reach.step ih he hv
+      · rw [hsym] at he
+        exact Spec.Reach.step ih he hv
+
 end SkNet.Classify
